@@ -42,8 +42,36 @@ impl From<anyhow::Error> for ParseError {
     }
 }
 
+/// The report handler pads the underline of a label with `{:width$}`, and a format width has to
+/// fit in 16 bits: a label that starts further right than that makes rendering panic. The
+/// column is counted in bytes here; a byte is at most four columns wide (a tab).
+const MAX_LABEL_COLUMN: usize = 8 * 1024;
+
+/// Whether the snippet with the label for `span` can be rendered.
+fn label_is_renderable(span: &Span) -> bool {
+    let content: &str = &span.file_content;
+    let column_of = |offset: usize| {
+        let bytes = content.as_bytes();
+        let upto = bytes.get(..offset).unwrap_or(bytes);
+        upto.iter().rev().take_while(|b| **b != b'\n').count()
+    };
+    column_of(span.start()) <= MAX_LABEL_COLUMN && column_of(span.end()) <= MAX_LABEL_COLUMN
+}
+
 impl From<ParseError> for miette::Error {
-    fn from(val: ParseError) -> Self {
+    fn from(mut val: ParseError) -> Self {
+        if val.span.as_ref().is_some_and(|s| !label_is_renderable(s)) {
+            // Too far to the right to be shown: say where it is instead.
+            if let Some(span) = val.span.take() {
+                val.msg = format!(
+                    "{}\n\nLocation: {}, line {}, byte {} of the file",
+                    val.msg,
+                    span.file_name(),
+                    span.start.line + 1,
+                    span.start()
+                );
+            }
+        }
         let diagnostic = CfgError {
             err_span: val
                 .span
